@@ -2,6 +2,7 @@
 from __future__ import annotations
 
 import datetime as D
+from fractions import Fraction
 import warnings
 
 from hypothesis import strategies as st
@@ -27,11 +28,16 @@ amount = st.one_of(
     st.fixed_dictionaries({"hours": st.integers(-3, 3), "minutes": st.sampled_from([0, -59, 59, 60, -60, 30]),
                            "seconds": st.sampled_from([0, 59, -59, 60, -60, 1, -1]),
                            "microseconds": st.sampled_from([0, 1, -1, 999999, -999999, 10**6, -10**6])}),
+    # seconds is declared as a float: dyadic fractions (k/64 s = k * 15625 us) are exact, so the requested amount stays an integer of microseconds
+    st.fixed_dictionaries({"seconds": st.integers(-64 * 7300, 64 * 7300).map(lambda k: k / 64)},
+                          optional={"hours": st.integers(-50, 50), "minutes": st.integers(-200, 200), "microseconds": st.integers(-2 * 10**6, 2 * 10**6)}),
 )
 
 
 def total(a):
-    return ((a.get("hours", 0) * 60 + a.get("minutes", 0)) * 60 + a.get("seconds", 0)) * US + a.get("microseconds", 0)
+    t = ((a.get("hours", 0) * 60 + a.get("minutes", 0)) * 60 + Fraction(a.get("seconds", 0))) * US + a.get("microseconds", 0)
+    assert t.denominator == 1, a
+    return int(t)
 
 
 OPS = ["add", "subtract", "+td", "-td", "td+"]
